@@ -5,6 +5,7 @@ import PV.Model.Pragma
 import PV.Model.Daemon
 import PV.Model.Stats
 import PV.Model.Tokens
+import PV.Model.Version
 import PV.DriverRun
 /-! One-JSON-object-in / one-JSON-object-out driver over the executable models. -/
 namespace PV.Driver
@@ -76,6 +77,13 @@ def handleE (j : Json) : Except String Json := do
     let src ← natsOf (← j.getObjVal? "code")
     let cs := src.map Char.ofNat
     pure (Json.mkObj [("ok", jNats [PV.Stats.numLines cs, PV.Stats.numBytes cs])])
+  | "wf" => do pure (Json.mkObj [("ok", ← PV.DriverRun.wf j)])
+  | "addversion" =>
+    let note ← natsOf (← j.getObjVal? "note")
+    let ls ← (← j.getObjVal? "lines").getArr?
+    let lines ← ls.toList.mapM (fun l => do pure ((← natsOf l).map Char.ofNat))
+    let r := PV.Version.addVersion (note.map Char.ofNat) lines
+    pure (Json.mkObj [("ok", Json.arr (r.map (fun l => jNats (l.map Char.toNat))).toArray)])
   | "same-program" => do pure (Json.mkObj [("ok", ← PV.DriverRun.sameProgram j)])
   | "fmtint" =>
     -- {"n": int, "hashes": [ints]} -> text of utils.format_int
